@@ -5,7 +5,7 @@ From Utp Require Import Base.Prelude Wire.SeqNr Wire.Header Rtt.Rtte Mtu.SegSize
   Conn.C10_Pred Conn.C02_Pred Conn.VSock_Inv Conn.C10_Proofs Conn.C02_Proofs
   Conn.VSock_Lemmas Conn.VSock_LemmasStep Conn.VSock_LemmasReach
   Conn.VSock_LemmasPark Tx.Segments_ProofsOut Conn.VSock_LemmasTimers Conn.VSock_LemmasPipe
-  Conn.VSock_LemmasEof.
+  Conn.VSock_LemmasEof Conn.C07_Pred Conn.C07_Proofs Conn.VSock_LemmasZw Mtu.SegSizes_Proofs.
 
 Section WithCC.
 Context {CC : Type} (cci : cc_iface CC).
@@ -139,6 +139,64 @@ Proof.
   - intros s o [H1 H2]. apply c02_eof_wakes_step; assumption.
   - intros s o [H1 H2]. split; [apply pk_vstep; exact H1 | apply rxi_vstep; exact H2].
   - split; [eapply pk_vsock_new; exact H0 | eapply rxi_vsock_new; [exact Hb | exact H0]].
+Qed.
+
+(* ================================================================== c02_zero_window_waker *)
+(* FALSE of the model as it stands (known finding D9, witness in C02_Proofs.v); true of every step
+   outside the D9 class "the segment size grew after the receive half was built" *)
+Definition c02_zero_window_waker_or_d9 (c : vconfig) (st : fstep) : bool :=
+  c02_zero_window_waker c st || c02_d9_class c st.
+
+Theorem c02_zero_window_waker_step : forall c (s : vsock) o,
+  rxi s -> mss_pos s -> rxconst (vc_rx_buf c) (floor_of (ss_config_of c)) s -> vc_rx_buf c < M32 ->
+  c02_zero_window_waker_or_d9 c (fstep_of cci s o) = true.
+Proof.
+  intros c s o Hrx Hm Hc Hq. unfold c02_zero_window_waker_or_d9, c02_zero_window_waker, c02_d9_class.
+  destruct (zero_window_guard (fstep_of cci s o)) eqn:G; [|reflexivity].
+  cbn [andb]. destruct (f_rx_disp_waker (fs_post (fstep_of cci s o))) eqn:Ew; [reflexivity|].
+  cbn [negb orb andb].
+  destruct (Z.ltb_spec (floor_of (ss_config_of c)) (f_mss (fs_post (fstep_of cci s o)))) as [Hlt|Hge];
+    [reflexivity|exfalso].
+  unfold zero_window_guard in G.
+  destruct o; try (rewrite fstep_of_event in G; discriminate G).
+  destruct (poll cci (VSockRec.set_sends s script)) as [s' r] eqn:E.
+  rewrite (fstep_of_poll cci s script s' r E) in *.
+  cbn [fs_event fs_result fs_post] in *.
+  destruct r; try discriminate G.
+  cbn [fp_of_vsock f_transport_pending f_last_sent_window f_state f_rx_len f_rx_qbytes
+       f_rx_reader_dropped f_rx_closed f_rx_disp_waker f_mss] in *.
+  repeat (apply andb_true_iff in G; destruct G as [G ?]).
+  apply negb_true_iff in G.
+  assert (Hd : disp_waker (v_rx s') = true).
+  { apply (zero_window_registered cci (vc_rx_buf c) (floor_of (ss_config_of c)) (VSockRec.set_sends s script) s').
+    - split; assumption.
+    - exact Hc.
+    - exact Hq.
+    - exact E.
+    - exact G.
+    - apply Z.eqb_eq. assumption.
+    - apply negb_true_iff. assumption.
+    - apply Z.eqb_eq. assumption.
+    - apply negb_true_iff. assumption.
+    - exact Hge. }
+  congruence.
+Qed.
+
+Theorem c02_zero_window_waker_trace : forall mk c (s0 : vsock) ops,
+  0 < vc_rx_buf c < M32 -> vsock_new cci mk c = Some s0 ->
+  forallb (c02_zero_window_waker_or_d9 c) (ftrace cci s0 ops) = true.
+Proof.
+  intros mk c s0 ops Hb H0.
+  apply (ftrace_forallb cci (fun s => rxi s /\ mss_pos s /\
+                                      rxconst (vc_rx_buf c) (floor_of (ss_config_of c)) s)).
+  - intros s o (H1 & H2 & H3). apply c02_zero_window_waker_step; try assumption. lia.
+  - intros s o (H1 & H2 & H3). split; [apply rxi_vstep; exact H1|].
+    split; [apply mss_pos_vstep; exact H2 | apply rxconst_vstep; exact H3].
+  - split; [apply (rxi_vsock_new cci mk c s0); [lia | exact H0]|].
+    split; [eapply mss_pos_vsock_new; exact H0|].
+    pose proof (rxconst_vsock_new cci mk c s0 H0) as K.
+    destruct (new_shape (ss_config_of c)) as (Hs & _). unfold mss in K.
+    unfold ss_config_of in *. rewrite Hs in K. exact K.
 Qed.
 
 (* ================================================================== c02_rto_armed *)
